@@ -425,7 +425,9 @@ class C17(PropBase):
         for i, df in enumerate(dfs):
             pre = prefixes[i % len(prefixes)]
             locs += [pre + df + "/zz/x.sym", pre + df + "//x.sym", pre + df + "/" + ident + "/", pre + df + "/" + ident + "/..",
-                     pre + df + "/" + ident + "/a/b", pre + df + "/" + ident, df]
+                     pre + df + "/" + ident + "/a/b", pre + df + "/" + ident, df,
+                     # backslashes are NOT separators of a Location (rsplit('/') only): in the tail, in the id part, before the name
+                     pre + df + "/" + ident + "/a\\b.sym", pre + df + "/w\\" + ident + "/x.sym", pre + "v\\" + df + "/" + ident + "/x\\"]
         for _ in range(150):
             locs.append("".join(rng.choice(["/", "/", "..", ".", "a", "x.pdb", ident, "\\", "%2e", ":", "?", "#", " ", "C:", "zz"]) for _ in range(rng.range(1, 7))))
         for loc in dict.fromkeys(locs):
